@@ -416,6 +416,11 @@ def bind_params(E, fn, c, args, kw, st, qualname):
     """-> ordered dict param -> value"""
     names = None
     defaults = {}
+    if c is not None and c.params is None and c.trusted:
+        # assumed external without a declared signature: every argument is accepted
+        out = {f"arg{i}": a for i, a in enumerate(args)}
+        out.update(kw)
+        return out
     if fn is not None:
         try:
             sig = inspect.signature(fn)
@@ -869,7 +874,10 @@ def _call_repo_pure(E, fdef, qualname, env, st):
     for cond, v, facts in rets:
         for f in facts:
             if st.qvars and _mentions(f, st.qvars):
-                raise OutsideSubset(f"{qualname}: a fact assumed while inlining under a binder mentions the bound variable")
+                # a fact about the bound element (typically "this external did not raise"): it cannot be kept outside the
+                # binder; dropping a hypothesis is sound for proving, and partial operations under binders are assumed defined
+                E.assumptions.add("partial operations inside quantifier/comprehension bodies are assumed defined")
+                continue
             st.assume(z3.Implies(cond, f) if not z3.is_true(cond) else f)
     res = rets[-1][1]
     for cond, v, _ in reversed(rets[:-1]):
